@@ -90,6 +90,14 @@ def run_map(ctx, traces, area, kind, ar, t, names, ranges, res, stream):
     case = {"stream": stream, "t": t, "traces": lines(traces), "areas": area_rows([area]), "names": list(names), "ranges": [list(r) for r in ranges]}
     tr = gpd.GeoDataFrame(geometry=to_float_lines(traces))
     try:
+        # HISTORY: the caller's frame has been analysed before, without truncation and with OTHER sets (and that analysis was read): the relationships
+        # of this Network must come from its own set definition
+        from shapely.geometry import box as _box
+
+        x0, y0, x1, y1 = tr.total_bounds
+        earlier = Network(trace_gdf=tr, area_gdf=gpd.GeoDataFrame(geometry=[_box(x0 - 10, y0 - 10, x1 + 10, y1 + 10)]), name="earlier", determine_branches_nodes=False,
+                          snap_threshold=t, truncate_traces=False, azimuth_set_names=("p", "q"), azimuth_set_ranges=((0, 90), (90.5, 180)))
+        _ = earlier.trace_azimuth_set_array, earlier.trace_length_array
         net = Network(trace_gdf=tr, area_gdf=gpd.GeoDataFrame(geometry=[area]), name="m", determine_branches_nodes=True, snap_threshold=t,
                       truncate_traces=True, azimuth_set_names=tuple(names), azimuth_set_ranges=tuple(ranges))
         sets_impl = list(net.trace_azimuth_set_array)
@@ -142,7 +150,7 @@ def run_map(ctx, traces, area, kind, ar, t, names, ranges, res, stream):
 
 def s12_relations(ctx):
     import_fractopo()
-    res = StreamResult("S12-relations", rule="valid maps (Lean oracle) x 5 azimuth-set definitions (2..5 sets, wrap-around, sets left empty first / in "
+    res = StreamResult("S12-relations", rule="(every map's frame is first analysed by another Network without truncation and with other sets) valid maps (Lean oracle) x 5 azimuth-set definitions (2..5 sets, wrap-around, sets left empty first / in "
                        "between / last); relations from the exact contacts; non-trivial = map x definition with at least one relation between sets")
     rng = rng_for(ctx.seed, "S12")
     t = 0.01
